@@ -89,6 +89,54 @@ def iteration_layers(t):
             return layers, t
 
 
+def alpha(t):
+    """rename bound (comprehension / lambda) variables canonically per binding scope (de Bruijn-like: depth.index)"""
+
+    def bound_names(x, acc):
+        if isinstance(x, tuple):
+            if x and x[0] == "bound" and len(x) == 2:
+                if x[1] not in acc:
+                    acc.append(x[1])
+            else:
+                for y in x:
+                    bound_names(y, acc)
+        return acc
+
+    def rec(x, env, depth):
+        if not isinstance(x, tuple):
+            return x
+        if x and x[0] == "bound" and len(x) == 2:
+            return ("bound", env.get(x[1], x[1]))
+        if x and x[0] == "comp" and len(x) == 4:
+            names = []
+            for g in x[3]:
+                bound_names(g[0], names)
+            env2 = dict(env)
+            for i, nm in enumerate(names):
+                env2[nm] = "v%d_%d" % (depth, i)
+            gens = tuple((rec(g[0], env2, depth + 1), rec(g[1], env2, depth + 1), tuple(rec(c, env2, depth + 1) for c in g[2])) for g in x[3])
+            return ("comp", x[1], rec(x[2], env2, depth + 1), gens)
+        if x and x[0] == "lambda" and len(x) == 3:
+            env2 = dict(env)
+            for i, nm in enumerate(x[1]):
+                env2[nm] = "l%d_%d" % (depth, i)
+            return ("lambda", tuple(env2[nm] for nm in x[1]), rec(x[2], env2, depth + 1))
+        return tuple(rec(y, env, depth) for y in x)
+
+    return rec(t, {}, 0)
+
+
+def canon_cmp(op, l, r):
+    """one canonical term per comparison: a > b is b < a, a >= b is b <= a; == / != order their operands"""
+    if op == ">":
+        return ("cmp", "<", r, l)
+    if op == ">=":
+        return ("cmp", "<=", r, l)
+    if op in ("==", "!=") and repr(l) > repr(r) and l != ("const", None) and r != ("const", None):
+        return ("cmp", op, r, l)
+    return ("cmp", op, l, r)
+
+
 def strip_sites(t):
     """drop the occurrence numbers of opaque calls (for agreement checks)"""
     if not isinstance(t, tuple):
@@ -471,7 +519,7 @@ class Interp:
             states, raises = self.eval_seq([node.left, node.comparators[0]], path)
             out = list(raises)
             for p, (l, r) in states:
-                term = ("cmp", OPNAME[type(node.ops[0])], l, r)
+                term = canon_cmp(OPNAME[type(node.ops[0])], l, r)
                 t = self.truth(term, p)
                 out.append(("value", p, term if t is None else ("const", t)))
             return out
@@ -482,7 +530,7 @@ class Interp:
             frontier = [p]
             results = []
             for i, op in enumerate(node.ops):
-                term = ("cmp", OPNAME[type(op)], vals[i], vals[i + 1])
+                term = canon_cmp(OPNAME[type(op)], vals[i], vals[i + 1])
                 nxt = []
                 for q in frontier:
                     t = self.truth(term, q)
